@@ -282,35 +282,4 @@ example : percentEncodeString {} pathSet [0x61, 0xE9] = lit "a%EF%BF%BD" := by d
 example : percentEncodeString {} pathSet (lit "%zz%4") = lit "%zz%4" := by decide +kernel
 
 
-/-! ### the tables regenerated from the Go code (T1): executed membership for all scalar values -/
-
-/-- each named set of the Go package — dumped by executing `RuneShouldBeEncoded` on every code point of the freshly built
-    package — contains exactly the code points the standard lists, for every scalar value -/
-theorem C10_generated_tables :
-    (∀ c, c ≤ 0x10ffff → inRanges Generated.set_c0 c = Spec.c0ControlSet c) ∧
-    (∀ c, c ≤ 0x10ffff → inRanges Generated.set_fragment c = Spec.fragmentSet c) ∧
-    (∀ c, c ≤ 0x10ffff → inRanges Generated.set_query c = Spec.querySet c) ∧
-    (∀ c, c ≤ 0x10ffff → inRanges Generated.set_specialQuery c = Spec.specialQuerySet c) ∧
-    (∀ c, c ≤ 0x10ffff → inRanges Generated.set_path c = Spec.pathSet c) ∧
-    (∀ c, c ≤ 0x10ffff → inRanges Generated.set_userinfo c = Spec.userinfoSet c) := by
-  refine ⟨?_, ?_, ?_, ?_, ?_, ?_⟩
-  · exact inRanges_lift _ _ (by decide) (by intro c hc; simp [Spec.c0ControlSet, hc]) (by decide)
-  · exact inRanges_lift _ _ (by decide) (by intro c hc; simp [Spec.fragmentSet, Spec.c0ControlSet, hc]) (by decide)
-  · exact inRanges_lift _ _ (by decide) (by intro c hc; simp [Spec.querySet, Spec.c0ControlSet, hc]) (by decide)
-  · exact inRanges_lift _ _ (by decide) (by intro c hc; simp [Spec.specialQuerySet, Spec.querySet, Spec.c0ControlSet, hc]) (by decide)
-  · exact inRanges_lift _ _ (by decide) (by intro c hc; simp [Spec.pathSet, Spec.querySet, Spec.c0ControlSet, hc]) (by decide)
-  · exact inRanges_lift _ _ (by decide) (by intro c hc; simp [Spec.userinfoSet, Spec.pathSet, Spec.querySet, Spec.c0ControlSet, hc]) (by decide)
-
-/-- … and the model's tables are those of the code: same ranges for every set the model names (so theorems about the model's
-    sets are theorems about the code's sets) -/
-theorem C10_model_tables_are_generated :
-    (∀ c, c ≤ 0x10ffff → inRanges Generated.set_c0 c = c0Set.has c) ∧ (∀ c, c ≤ 0x10ffff → inRanges Generated.set_c0sp c = c0OrSpaceSet.has c) ∧
-    (∀ c, c ≤ 0x10ffff → inRanges Generated.set_fragment c = fragmentSet.has c) ∧ (∀ c, c ≤ 0x10ffff → inRanges Generated.set_query c = querySet.has c) ∧
-    (∀ c, c ≤ 0x10ffff → inRanges Generated.set_specialQuery c = specialQuerySet.has c) ∧ (∀ c, c ≤ 0x10ffff → inRanges Generated.set_path c = pathSet.has c) ∧
-    (∀ c, c ≤ 0x10ffff → inRanges Generated.set_userinfo c = userinfoSet.has c) ∧ (∀ c, c ≤ 0x10ffff → inRanges Generated.set_host c = hostSet.has c) ∧
-    (∀ c, c ≤ 0x10ffff → inRanges Generated.set_laxPath c = laxPathSet.has c) ∧ (∀ c, c ≤ 0x10ffff → inRanges Generated.set_laxQuery c = laxQuerySet.has c) ∧
-    (∀ c, c ≤ 0x10ffff → inRanges Generated.set_repeatedQuery c = repeatedQuerySet.has c) := by
-  refine ⟨?_, ?_, ?_, ?_, ?_, ?_, ?_, ?_, ?_, ?_, ?_⟩ <;>
-    exact inRanges_lift _ _ (by decide) (by intro c hc; simp [PSet.has, hc]) (by decide)
-
 end WhatwgUrl.Props.C10
